@@ -176,4 +176,21 @@ pub mod sched {
             callback(name);
         }
     }
+
+    /// H9: scheduling points that also say which key the caller is working on (the TTL
+    /// sweeper between its sample and its guarded removal, lazy retirement before its guard).
+    pub type KeyCallback = Arc<dyn Fn(&'static str, &[u8]) + Send + Sync>;
+    static KEY_CALLBACK: RwLock<Option<KeyCallback>> = RwLock::new(None);
+
+    pub fn install_keyed(callback: Option<KeyCallback>) {
+        *KEY_CALLBACK.write().unwrap() = callback;
+    }
+
+    #[inline]
+    pub(crate) fn point_key(name: &'static str, key: &[u8]) {
+        let callback = KEY_CALLBACK.read().unwrap().clone();
+        if let Some(callback) = callback {
+            callback(name, key);
+        }
+    }
 }
